@@ -31,14 +31,14 @@ ASSUMPTIONS = [
 TRUSTED = ["translator props/c13.py:translate compares the arm order and literals of on_request_headers / on_response_headers / handle_trailer / the converter's Header arm with /repo"]
 
 
-TRANSLATE_FALLBACK = ("every fact read from editor.rs / pkawa.rs / converter.rs / h1.rs / h2.rs decides the header list that is written: the "
-                      "in-process correspondence compares it with the model's on every case (every proxy-owned name in several case "
-                      "variants and positions, correlation names colliding with the reserved ones, H2 trailers carrying the elided "
-                      "names, connection-specific / te / trailer / http2-settings names toward H2) and the black-box tiers (extra_stage, "
-                      "run on every check) observe the trailer filtering call sites of h1.rs / h2.rs through a real worker. Not "
-                      "observed, hence hard: the reserved list of validate_sozu_id_header and its call sites (read as a set of string "
-                      "literals / a call count). The two defensive byte-class filters of the converter's Header arm cannot be reached "
-                      "by header blocks kawa / pkawa produce; they only pin the model's defensive branch")
+TRANSLATE_FALLBACK = ("a fact is soft only when the construct holding it cannot be FOUND; found-but-different or not understood fails the "
+                      "check. Two facts can be soft: the headers on_request_headers pushes when some go through a private helper (the "
+                      "in-process correspondence compares the written header list, names, values and order, with the model's on every "
+                      "case) and the connection-specific names when is_connection_specific_header is renamed (every such name, in "
+                      "several spellings, is sent toward an H2 backend on every check). Tested: the helper with two pushes swapped, and "
+                      "the renamed function with keep-alive dropped, both exit 1 through the correspondence. Everything else is hard: "
+                      "the arm chain, the literals, handle_trailer / elide_proxy_owned_trailers (named by the harness hooks, a rename "
+                      "does not build) and their call sites, the converter's Header arm, the reserved list of validate_sozu_id_header")
 
 ARM_NAMES = [b"connection", b"x-forwarded-proto", b"x-forwarded-port", b"x-forwarded-for", b"x-real-ip", b"forwarded",
              b"user-agent", b"x-request-id"]
@@ -99,7 +99,7 @@ def translate():
         if set(seq) != set(want):
             raise F.Unreadable("names tested before the first push: %r" % seq)
         return None if seq == want else "the names are tested in the order %r" % seq
-    _fact(fails, "editor.rs on_request_headers arm chain", "connection, X-Forwarded-Proto, -Port, -For, X-Real-IP (when eliding), Forwarded, User-Agent, X-Request-Id, correlation header", arms)
+    _fact(fails, "editor.rs on_request_headers arm chain", "connection, X-Forwarded-Proto, -Port, -For, X-Real-IP (when eliding), Forwarded, User-Agent, X-Request-Id, correlation header", arms, hard=True)
 
     def pushed():
         req = F.fn_body(ed, "on_request_headers")
@@ -123,7 +123,7 @@ def translate():
                 raise F.Unreadable("literal %r is not in editor.rs" % need)
         if not re.search(r'", \{\w+\}"', ed):
             raise F.Unreadable('the `", {peer}"` element appended to X-Forwarded-For is not recognised')
-    _fact(fails, "editor.rs literals", 'proto=<p>;for="<peer>";by=<public>, `, ` separators, `; Path=/`', literals)
+    _fact(fails, "editor.rs literals", 'proto=<p>;for="<peer>";by=<public>, `, ` separators, `; Path=/`', literals, hard=True)
 
     def trailer_list():
         got = {n for _, n in _names(F.fn_body(pk, "handle_trailer"))}
@@ -131,7 +131,7 @@ def translate():
         if not want & got:
             raise F.Unreadable("no elided name is spelled in handle_trailer")
         return None if got == want else "handle_trailer names %r" % sorted(got)
-    _fact(fails, "pkawa.rs handle_trailer elision", "x-real-ip | x-forwarded-for | forwarded | x-request-id", trailer_list)
+    _fact(fails, "pkawa.rs handle_trailer elision", "x-real-ip | x-forwarded-for | forwarded | x-request-id", trailer_list, hard=True)
 
     def owned_trailers():
         body = F.fn_body(pk, "elide_proxy_owned_trailers")
@@ -140,7 +140,7 @@ def translate():
         if not want & got or not re.search(r"\w+\(\s*\w+\s*,\s*&?\s*sozu_id_header\s*\)", body):
             raise F.Unreadable("names %r / the correlation header test are not recognised" % sorted(got))
         return None if got == want else "elide_proxy_owned_trailers names %r" % sorted(got)
-    _fact(fails, "pkawa.rs elide_proxy_owned_trailers", "the four attribution names + the correlation header", owned_trailers)
+    _fact(fails, "pkawa.rs elide_proxy_owned_trailers", "the four attribution names + the correlation header", owned_trailers, hard=True)
 
     def call_sites():
         h1, h2 = rd("lib/src/protocol/mux/h1.rs"), rd("lib/src/protocol/mux/h2.rs")
@@ -149,7 +149,7 @@ def translate():
             raise _absent("no call to elide_proxy_owned_trailers in h1.rs / h2.rs")
         if n1 < 2 or n2 < 1:
             raise F.Unreadable("elide_proxy_owned_trailers is called %d time(s) in h1.rs and %d in h2.rs" % (n1, n2))
-    _fact(fails, "h1.rs / h2.rs trailer filtering", "both H1 parse sites and the H2 trailer path call elide_proxy_owned_trailers", call_sites)
+    _fact(fails, "h1.rs / h2.rs trailer filtering", "both H1 parse sites and the H2 trailer path call elide_proxy_owned_trailers", call_sites, hard=True)
 
     def conn_specific():
         got = {n for _, n in _names(F.fn_body(pk, "is_connection_specific_header"))}
@@ -166,6 +166,28 @@ def translate():
         for need in (b"host", b"http2-settings", b"trailer", b"te", b"trailers"):
             if need not in lits:
                 raise F.Unreadable("literal %r is not in the converter" % need)
+        # the first-byte dispatch in front of the name tests: every name must be reachable in both cases
+        md = re.search(r"\bmatch\s+\w+\.first\(\)\s*\{", body)
+        if md:
+            i0 = body.find("{", md.start())
+            inner = body[i0 + 1:F.matching(body, i0)]
+            reach = {}
+            for ma in re.finditer(r"Some\(([^()]*)\)\s*=>\s*\{", inner):
+                first = F.pattern_set(ma.group(1))
+                a0 = inner.find("{", ma.end() - 1)
+                arm = inner[a0:F.matching(inner, a0) + 1]
+                names = {n for _, n in _names(arm)}
+                for callee in set(re.findall(r"\b(\w+)\(\s*\w+\s*\)", arm)):
+                    try:
+                        names |= {n for _, n in _names(F.fn_body(pk, callee))}
+                    except F.Unreadable:
+                        pass
+                for n in names:
+                    reach.setdefault(n, set()).update(first)
+            for n in (b"connection", b"proxy-connection", b"transfer-encoding", b"upgrade", b"keep-alive", b"host", b"http2-settings", b"trailer", b"te"):
+                need = {n[0], n[:1].upper()[0]}
+                if not need <= reach.get(n, set()):
+                    return "the first-byte dispatch does not lead %r (both cases) to its test" % n
         sets = []
         for mm in re.finditer(r"\.any\(\s*\|\s*&?\s*(\w+)\s*\|", body):
             st = body.find("(", mm.start())
@@ -175,7 +197,7 @@ def translate():
                 pass
         if (set(range(0, 33)) | set(range(127, 256))) not in sets or (set(range(0, 9)) | set(range(10, 32)) | {127}) not in sets:
             raise F.Unreadable("the defensive name / value byte filters of the Header arm are not recognised")
-    _fact(fails, "converter.rs Header arm", "host, http2-settings, trailer, te != trailers dropped; names <= 0x20 or >= 0x7f and values with C0/DEL dropped", h2_arm)
+    _fact(fails, "converter.rs Header arm", "host, http2-settings, trailer, te != trailers dropped; names <= 0x20 or >= 0x7f and values with C0/DEL dropped", h2_arm, hard=True)
 
     # ---- not observed by any driver: stays hard, read as values
     def reserved():
